@@ -252,7 +252,10 @@ def judge_trace(legs, r, trace, overloaded, name):
         consumed = int(ls[-1]) if ls else 0
     if r["violated"]:
         # an invariant: TLC stops at the violating state, the offending event is the last one consumed
-        seg, ev = segment_of(trace, max(consumed - 1, 0))
+        # (the segment keeps one more event so that the violating state is certainly reached on re-validation)
+        seg, _ = segment_of(trace, consumed)
+        consumed = max(consumed - 1, 0)
+        _, ev = segment_of(trace, consumed)
         klass = "trace-health:invariant:%s" % r["violated"]
         why = "invariant %s violated after the event" % r["violated"]
     else:
